@@ -26,6 +26,8 @@ pub enum Class {
     /// process died: signal number (negative) or exit code
     Crash(i32),
     Hang,
+    /// not executed: the run was abandoned after too many hangs
+    Skipped,
 }
 
 #[derive(Clone, Debug)]
@@ -110,6 +112,9 @@ pub fn repo_commit() -> (String, bool) {
 static NONCE_CTR: AtomicU64 = AtomicU64::new(0);
 /// hangs seen so far in this process (later hangs get a shorter deadline)
 pub static HANGS: AtomicU64 = AtomicU64::new(0);
+/// after this many hangs in one run the remaining cases are skipped (the run is reported
+/// as capped; the violations found so far stand)
+pub const HANG_ABORT: u64 = 24;
 /// cap on the output of one script (reference-terminating programs print far less)
 pub const OUT_CAP: usize = 1 << 20;
 
@@ -192,6 +197,12 @@ impl Pool {
         let mut out: Vec<Outcome> = Vec::with_capacity(reqs.len());
         let mut respawns = 0;
         while out.len() < reqs.len() {
+            if HANGS.load(Ordering::SeqCst) >= HANG_ABORT {
+                while out.len() < reqs.len() {
+                    out.push(Outcome { class: Class::Skipped, stdout: vec![], msg: String::new() });
+                }
+                break;
+            }
             let base = out.len();
             let nonce = nonce();
             let mut child = self.spawn_worker(&nonce)?;
@@ -323,7 +334,8 @@ impl Pool {
                             continue 'req;
                         }
                         captured.extend_from_slice(&line);
-                        if captured.len() > OUT_CAP {
+                        let cap = OUT_CAP.max(reqs.get(out.len()).map(|r| if r.mode == Mode::Run { 0 } else { 200 * r.src.len() }).unwrap_or(0));
+                        if captured.len() > cap {
                             // runaway output: programs sent here terminate in the reference
                             // model with bounded output, so this is a non-terminating run
                             killed.store(true, Ordering::SeqCst);
@@ -607,7 +619,7 @@ pub fn run_cli_at(bin: &Path, src: &[u8], rel: &str) -> Result<CliOutcome, Machi
     Ok(o)
 }
 
-fn run_cli_at_once(bin: &Path, src: &[u8], rel: &str, timeout: Duration) -> Result<CliOutcome, MachineryError> {
+pub fn run_cli_at_once(bin: &Path, src: &[u8], rel: &str, timeout: Duration) -> Result<CliOutcome, MachineryError> {
     let d = scratch_dir();
     let full = d.join(rel);
     if let Some(parent) = full.parent() {
